@@ -699,6 +699,11 @@ void urcu_bp_before_fork(void)
 	urcu_posix_assert(!ret);
 	mutex_lock(&rcu_gp_lock);
 	mutex_lock(&rcu_registry_lock);
+	/*
+	 * Also hold init_lock: a thread registering (first use) or exiting
+	 * holds it briefly, and the child would inherit it locked forever.
+	 */
+	mutex_lock(&init_lock);
 	saved_fork_signal_mask = oldmask;
 }
 
@@ -708,6 +713,7 @@ void urcu_bp_after_fork_parent(void)
 	int ret;
 
 	oldmask = saved_fork_signal_mask;
+	mutex_unlock(&init_lock);
 	mutex_unlock(&rcu_registry_lock);
 	mutex_unlock(&rcu_gp_lock);
 	ret = pthread_sigmask(SIG_SETMASK, &oldmask, NULL);
@@ -745,6 +751,7 @@ void urcu_bp_after_fork_child(void)
 
 	urcu_bp_prune_registry();
 	oldmask = saved_fork_signal_mask;
+	mutex_unlock(&init_lock);
 	mutex_unlock(&rcu_registry_lock);
 	mutex_unlock(&rcu_gp_lock);
 	ret = pthread_sigmask(SIG_SETMASK, &oldmask, NULL);
